@@ -669,8 +669,33 @@ func NewNXActionCTNAT() *NXActionCTNAT {
 	return a
 }
 
+// rangeLen is the size of the ranges marked present.
+func (a *NXActionCTNAT) rangeLen() (n uint16) {
+	if a.rangePresent&NX_NAT_RANGE_IPV4_MIN != 0 {
+		n += 4
+	}
+	if a.rangePresent&NX_NAT_RANGE_IPV4_MAX != 0 {
+		n += 4
+	}
+	if a.rangePresent&NX_NAT_RANGE_IPV6_MIN != 0 {
+		n += 16
+	}
+	if a.rangePresent&NX_NAT_RANGE_IPV6_MAX != 0 {
+		n += 16
+	}
+	if a.rangePresent&NX_NAT_RANGE_PROTO_MIN != 0 {
+		n += 2
+	}
+	if a.rangePresent&NX_NAT_RANGE_PROTO_MAX != 0 {
+		n += 2
+	}
+	return n
+}
+
+// Len is the fixed part plus the ranges that are present, padded to 8 bytes. It
+// does not depend on how often a range was set or the size was asked for.
 func (a *NXActionCTNAT) Len() (n uint16) {
-	a.Length = ((a.Length + 7) / 8) * 8
+	a.Length = ((16 + a.rangeLen() + 7) / 8) * 8
 	return a.Length
 }
 
@@ -757,32 +782,32 @@ func (a *NXActionCTNAT) SetPersistent() error {
 func (a *NXActionCTNAT) SetRangeIPv4Min(ipMin net.IP) {
 	a.rangeIPv4Min = ipMin
 	a.rangePresent |= NX_NAT_RANGE_IPV4_MIN
-	a.Length += 4
+	a.Length = a.Len()
 }
 func (a *NXActionCTNAT) SetRangeIPv4Max(ipMax net.IP) {
 	a.rangeIPv4Max = ipMax
 	a.rangePresent |= NX_NAT_RANGE_IPV4_MAX
-	a.Length += 4
+	a.Length = a.Len()
 }
 func (a *NXActionCTNAT) SetRangeIPv6Min(ipMin net.IP) {
 	a.rangeIPv6Min = ipMin
 	a.rangePresent |= NX_NAT_RANGE_IPV6_MIN
-	a.Length += 16
+	a.Length = a.Len()
 }
 func (a *NXActionCTNAT) SetRangeIPv6Max(ipMax net.IP) {
 	a.rangeIPv6Max = ipMax
 	a.rangePresent |= NX_NAT_RANGE_IPV6_MAX
-	a.Length += 16
+	a.Length = a.Len()
 }
 func (a *NXActionCTNAT) SetRangeProtoMin(protoMin *uint16) {
 	a.rangeProtoMin = protoMin
 	a.rangePresent |= NX_NAT_RANGE_PROTO_MIN
-	a.Length += 2
+	a.Length = a.Len()
 }
 func (a *NXActionCTNAT) SetRangeProtoMax(protoMax *uint16) {
 	a.rangeProtoMax = protoMax
 	a.rangePresent |= NX_NAT_RANGE_PROTO_MAX
-	a.Length += 2
+	a.Length = a.Len()
 }
 
 func (a *NXActionCTNAT) UnmarshalBinary(data []byte) error {
@@ -790,7 +815,7 @@ func (a *NXActionCTNAT) UnmarshalBinary(data []byte) error {
 	a.NXActionHeader = new(NXActionHeader)
 	err := a.NXActionHeader.UnmarshalBinary(data[n:])
 	n += int(a.NXActionHeader.Len())
-	if len(data) < int(a.Len()) {
+	if a.Length < 16 || len(data) < int(a.Length) {
 		return errors.New("the []byte is too short to unmarshal a full NXActionCTNAT message")
 	}
 	// Skip padding bytes
@@ -799,6 +824,9 @@ func (a *NXActionCTNAT) UnmarshalBinary(data []byte) error {
 	n += 2
 	a.rangePresent = binary.BigEndian.Uint16(data[n:])
 	n += 2
+	if len(data) < 16+int(a.rangeLen()) {
+		return errors.New("the []byte is too short for the ranges of the NXActionCTNAT message")
+	}
 	if a.rangePresent&NX_NAT_RANGE_IPV4_MIN != 0 {
 		a.rangeIPv4Min = net.IPv4(data[n], data[n+1], data[n+2], data[n+3])
 		n += 4
